@@ -7,7 +7,13 @@ fn emit_condition(
     match condition {
         Condition::Bool(value) => out.push(json!(value)),
         Condition::FunctionCall(name) => {
-            out.push(json!({"f()": name}));
+            // A call without arguments is an expression like any other: an
+            // external function, a built-in or a function of the story
+            let call = Expression::FunctionCall {
+                name: name.clone(),
+                args: Vec::new(),
+            };
+            emit_expression_ctx(&call, out, Some(context), Some(scope))
         }
         Condition::Expression(Expression::Variable(name))
             if scope.resolve_choice_label(name).is_some() =>
